@@ -100,6 +100,42 @@ def parse_rank_part(part, nr):
     return n, ranges, d.get("R", []), d.get("S", []), d.get("G")
 
 
+def check_adaptive(vecs, nr, lines):
+    """lines[r] = what rank r printed after sc_ranges_adaptive + sc_ranges_decode ('maxpeers maxwin;n lo hi ..:R ..:S ..:G table')"""
+    P = len(vecs)
+    heads = [lines[r].split(";")[0] for r in range(P)]
+    parts = [parse_rank_part(lines[r].split(";")[1], nr) for r in range(P)]
+    if len(set(heads)) != 1:
+        return "the maxima differ between the ranks: %s" % heads
+    if len(set(tuple(p[4]) for p in parts)) != 1:
+        return "the global table differs between the ranks"
+    for r in range(P):
+        d2 = check_compute(vecs[r], r, nr, parts[r][0], parts[r][1])
+        if d2:
+            return "rank %d: %s" % (r, d2)
+    mp, mw = [unhx(x) for x in heads[0].split()]
+    want_mp = max([sum(1 for j in range(P) if vecs[r][j] > 0 and j != r) for r in range(P)] + [0])
+    want_mw = max([parts[r][0] for r in range(P)] + [0])
+    if (mp, mw) != (want_mp, want_mw):
+        return "maxima (%d, %d), the largest peer count / number of ranges are (%d, %d)" % (mp, mw, want_mp, want_mw)
+    want_tbl = [x for r in range(P) for pr in parts[r][1][:mw] for x in pr]
+    if list(parts[0][4]) != want_tbl:
+        return "the global table %s is not the ranks' first %d ranges in rank order %s" % (parts[0][4][:24], mw, want_tbl[:24])
+    peers_of = [[j for j in range(P) if vecs[r][j] != 0 and j != r] for r in range(P)]
+    return check_decode(P, [parts[r][1][:parts[r][0]] for r in range(P)], [p[2] for p in parts], [p[3] for p in parts], peers_of)
+
+
+def gen_adaptive(rng, P, n):
+    acases = []
+    for _ in range(n):
+        dens = rng.choice([0.1, 0.4, 0.8])
+        vals = rng.choice([[1], [1], [1, 2, -1], [1, 5, -3]])       # negative entries are peers but are not counted by the first maximum
+        vecs = [[(rng.choice(vals) if rng.random() < dens else 0) for _ in range(P)] for _ in range(P)]
+        nr = rng.choice([1, 2, 3, 4])
+        acases.append((vecs, nr, "A %x %x %s" % (nr, P, " ".join(hx(x) for vv in vecs for x in vv))))
+    return acases
+
+
 # ------------------------------------------------------------------------------------------------
 # cases
 # ------------------------------------------------------------------------------------------------
@@ -156,7 +192,8 @@ def gen_cases(ctx):
         if rng.random() < 0.03:
             P = rng.choice([100, 200])
         dens = rng.choice([0.05, 0.2, 0.5, 0.8])
-        vecs = [[(rng.choice([1, 1, 3]) if rng.random() < dens else 0) for _ in range(P)] for _ in range(P)]
+        vals = rng.choice([[1, 1, 3], [1], [1, -1, 2], [-2, 4]])
+        vecs = [[(rng.choice(vals) if rng.random() < dens else 0) for _ in range(P)] for _ in range(P)]
         nr = rng.choice([1, 2, 3, 4, 6, 25])
         cases.append(("T", (vecs, nr), "T %x %x %s" % (nr, P, " ".join(hx(x) for v in vecs for x in v))))
     # random well-formed tables for decode alone
@@ -186,8 +223,9 @@ def run(ctx):
     v = ctx.variant(mpi="off", san=True)
     exe = ctx.cc([harness], os.path.join(ctx.scratch, "c15_serial"), v)
     cases, nex, nfam = gen_cases(ctx)
+    rp = {}
     if ctx.replay:
-        rp = json.load(open(ctx.replay)).get("replay", {})
+        rp = json.load(open(ctx.replay)).get("replay", {}) or {}
         if "case" in rp:
             kind = rp["case"][0]
             w = rp["case"].split()
@@ -253,6 +291,7 @@ def run(ctx):
                     dev = check_decode(P, rows, R, S, peers_of)
                 if not dev and head[1] != max([len(x) for x in rows] + [0]):
                     dev = "maximum number of ranges %d differs from the largest return value" % head[1]
+                nontriv = any(len(x) > 0 for x in rows)
                 dist["T"] = dist.get("T", 0) + 1
             elif kind == "D":
                 P, M, rows = meta
@@ -275,19 +314,64 @@ def run(ctx):
             ndis += 1
             if ndis <= 3:
                 ctx.tie_broken("correspondence model/libsc", "case '%s...': libsc '%s', model '%s'" % (line[:120], io[:200], model[i][:200] if i < len(model) else "<missing>"))
+    # sc_ranges_adaptive on the simulated MPI: every schedule adversary, replayable (seed, adversary)
+    nsim = 0
+    try:
+        vs = ctx.variant(mpi="sim", san=True)
+        exes = ctx.cc([harness, os.path.join(vlib.TOOLS, "simmpi", "simmpi.c")], os.path.join(ctx.scratch, "c15_sim"), vs, extra=("-DC15_SIM",))
+        scases = []
+        if ctx.replay and rp.get("sim"):
+            scases.append(tuple(rp["sim"]))
+        for P in ((1, 2, 3, 4, 5, 8, 13) if ctx.quick else (1, 2, 3, 4, 5, 6, 7, 8, 9, 13, 16, 24, 32)):
+            for (vecs, nr, line) in gen_adaptive(ctx.rng, P, 24 if ctx.quick else 200):
+                scases.append((ctx.rng.randrange(1 << 30), ctx.rng.randrange(8), nr, [list(v) for v in vecs], line))
+        stext = "".join("S %x %x %s\n" % (sd, adv, line[2:]) for (sd, adv, nr, vecs, line) in scases)
+        rc, sl, serr = ctx.run_lines([exes], stext, timeout=900, env=env)
+        sl = [l for l in sl if l != ""]
+        ml = None
+        if model is not None:
+            rcm, ml, em = ctx.run_lines([mexe], "".join(c[4] + "\n" for c in scases), timeout=600)
+            ml = [l for l in ml if l != ""]
+        pos = mpos = 0
+        for (sd, adv, nr, vecs, line) in scases:
+            P = len(vecs)
+            rep = dict(sim=[sd, adv, nr, vecs, line], case=line)
+            key = "adaptive-sim:P%d:nr%d:adv%d" % (P, nr, adv)
+            if pos >= len(sl) or not sl[pos].startswith("RUN "):
+                ctx.violation("crash:sim", "the simulated run of '%s' (seed %d, adversary %d) ended the harness (exit %s): %s" % (line[:120], sd, adv, rc, serr.strip()[-400:].replace("\n", " | ")), rep)
+                break
+            head, per = sl[pos], sl[pos + 1:pos + 1 + P]
+            pos += 1 + P
+            ctx.count_case(("sim", sd, adv, line), nontrivial=P > 1)
+            nsim += 1
+            if not head.startswith("RUN rc=0 mem=0"):
+                ctx.violation(key, "sc_ranges_adaptive on the simulated MPI, case '%s' seed %d adversary %d: %s" % (line[:120], sd, adv, head[:400]), rep)
+                continue
+            try:
+                outs = [l.split(": ", 1)[1] for l in per]
+                dev = check_adaptive(vecs, nr, outs)
+            except (IndexError, ValueError) as e:
+                outs, dev = None, "unparsable output (%s)" % e
+            if dev:
+                ctx.violation(key, "sc_ranges_adaptive on the simulated MPI, case '%s' seed %d adversary %d: %s" % (line[:120], sd, adv, dev), rep)
+            if ml is not None and outs is not None:
+                if ml[mpos:mpos + P] != outs:
+                    ndis += 1
+                    if ndis <= 3:
+                        b = [r for r in range(P) if mpos + r >= len(ml) or ml[mpos + r] != outs[r]][0]
+                        ctx.tie_broken("correspondence model/libsc (simulated MPI)", "case '%s' rank %d: libsc '%s', model '%s'" % (
+                            line[:100], b, outs[b][:200], ml[mpos + b][:200] if mpos + b < len(ml) else "<missing>"))
+            mpos += P
+    except vlib.BuildError as e:
+        ctx.tie_broken("c15 simmpi build", str(e)[-1000:])
+    dist["A (simulated MPI, 8 adversaries)"] = nsim
     # sc_ranges_adaptive for real under OpenMPI
     nmpi = 0
     try:
         vm = ctx.variant(mpi="ompi", san=False)
         exem = ctx.cc([harness], os.path.join(ctx.scratch, "c15_mpi"), vm)
-        for P in ((2, 3, 5) if ctx.quick else (1, 2, 3, 4, 5, 7, 8)):
-            rng = ctx.rng
-            acases = []
-            for _ in range(40 if ctx.quick else 300):
-                dens = rng.choice([0.1, 0.4, 0.8])
-                vecs = [[(1 if rng.random() < dens else 0) for _ in range(P)] for _ in range(P)]
-                nr = rng.choice([1, 2, 3, 4])
-                acases.append((vecs, nr, "A %x %x %s" % (nr, P, " ".join(hx(x) for vv in vecs for x in vv))))
+        for P in ((2, 5) if ctx.quick else (1, 2, 3, 4, 5, 7, 8)):
+            acases = gen_adaptive(ctx.rng, P, 30 if ctx.quick else 300)
             cf = os.path.join(ctx.scratch, "c15_mpi_%d.txt" % P)
             atext = "\n".join(c[2] for c in acases) + "\n"
             open(cf, "w").write(atext)
@@ -309,22 +393,8 @@ def run(ctx):
                                        "case '%s': libsc '%s', model '%s'" % (acases[bad[0]][2][:100], per[r][bad[0]][:200] if bad[0] < len(per[r]) else "<missing>",
                                                                               ml[bad[0]][:200] if bad[0] < len(ml) else "<missing>"))
             for k, (vecs, nr, line) in enumerate(acases):
-                dev = None
                 try:
-                    heads = [per[r][k].split(";")[0] for r in range(P)]
-                    parts = [parse_rank_part(per[r][k].split(";")[1], nr) for r in range(P)]
-                    if len(set(heads)) != 1:
-                        dev = "the maxima differ between the ranks: %s" % heads
-                    elif len(set(tuple(p[4]) for p in parts)) != 1:
-                        dev = "the global table differs between the ranks"
-                    else:
-                        for r in range(P):
-                            d2 = check_compute(vecs[r], r, nr, parts[r][0], parts[r][1])
-                            if d2 and not dev:
-                                dev = "rank %d: %s" % (r, d2)
-                        if not dev:
-                            peers_of = [[j for j in range(P) if vecs[r][j] != 0 and j != r] for r in range(P)]
-                            dev = check_decode(P, [parts[r][1][:parts[r][0]] for r in range(P)], [p[2] for p in parts], [p[3] for p in parts], peers_of)
+                    dev = check_adaptive(vecs, nr, [per[r][k] for r in range(P)])
                 except (IndexError, ValueError) as e:
                     dev = "unparsable output (%s)" % e
                 ctx.count_case(("mpi", line), nontrivial=True)
@@ -334,24 +404,24 @@ def run(ctx):
     except vlib.BuildError as e:
         ctx.tie_broken("c15 OpenMPI build", str(e)[-1000:])
     dist["A (OpenMPI)"] = nmpi
-    ctx.cov["disagreements_checked"] = len(cases) + nmpi
+    ctx.cov["disagreements_checked"] = len(cases) + nmpi + nsim
     ctx.cov["exhaustive"] = True
     ctx.cov["rule"] = ("EXHAUSTIVE: sc_ranges_compute for every P in 1..7, every 0/1 indicator vector, every own rank, budgets 1..4 (%d cases), and complete "
                        "emulated runs (compute per rank, maxima, gather, decode per rank) for every family of vectors with P <= %d and budgets 1..4 (%d "
                        "cases); plus seeded random cases: compute up to P = 200 (densities 2%%..98%%, block patterns with equal gap lengths, values "
-                       "0/1/2/7/-1), families up to P = 40 (some 100/200), decode on random well-formed tables, sc_ranges_adaptive under OpenMPI for "
-                       "a few P; a case is non-trivial if at least one range is produced; distinct = distinct case text"
+                       "0/1/2/7/-1), families up to P = 40 (some 100/200, negative entries included), decode on random well-formed tables, "
+                       "sc_ranges_adaptive + decode on the simulated MPI (P up to 13, 32 in the thorough tier, all 8 schedule adversaries, random seeds) "
+                       "and under OpenMPI for a few P; a case is non-trivial if at least one range is produced (simulated runs: P > 1); "
+                       "distinct = distinct case text (and schedule)"
                        % (nex, 3 if ctx.quick else 4, nfam))
     ctx.notes["case_distribution"] = dist
     ctx.notes["oracle_violations"] = nviol
     ctx.notes["model_disagreements"] = ndis
-    ctx.notes["needs_simmpi"] = ("schedules of the adaptive collective: the same harness mode 'A' (every rank calls sc_ranges_adaptive on the world "
-                                 "communicator) can be linked against tools/simmpi; here it runs under OpenMPI only")
     for c in (cases[100], cases[nex + 5], cases[-1]):
         ctx.sample({"case": c[2][:200]})
     ctx.cov["trusted_base"] = ["hand-written model coq/C15/RangesModel.v (tied only by this correspondence run; no T1 part: the code writes arrays, which c2g does not translate)",
                                "insertion sort stands for qsort: the keys (starts of the empty ranges) are pairwise different, so the sorted result is unique",
-                               "OpenMPI's Allreduce/Allgather for the adaptive run"]
+                               "tools/simmpi and OpenMPI: MPI_Allreduce (MAX) / MPI_Allgather return their specified values on every rank"]
     ctx.assumptions += ["first_peer / last_peer are the smallest / largest peer, or (num_procs, -1) without peers (asserted by the debug build, computed like sc_notify.c does)",
                         "0 <= rank < num_procs, num_ranges >= 1, the same num_ranges on all ranks of an adaptive call",
                         "decode: rows are filled prefixes of sorted, separated ranges inside [0, num_procs) followed by (-1,-2) (asserted by the debug build)"]
